@@ -291,7 +291,7 @@ Section GoodEv.
       constructor; [|constructor]. apply node_all_call. split; [|constructor].
       repeat split; try discriminate; auto. }
     destruct (nth_error (st_heap st) fr) as [cur|]; [|inversion H; auto with memo].
-    destruct (nth_error (st_heap st) (if bytes_eqb (fr_key cur) (fd_key fd) then fr else env)) as [pf|];
+    destruct (nth_error (st_heap st) (if same_fn cur d env then fr else env)) as [pf|];
       [|inversion H; auto with memo].
     destruct (negb (length args =? length (fd_params fd))).
     { inversion H; subst. split; simpl; [discriminate|].
@@ -394,7 +394,6 @@ Proof.
   - destruct (eval f on defs st fr e1) as [rc st1] eqn:E1. pose proof (Hev _ _ _ _ _ E1).
     destruct (r_oc rc) as [vc| |]; try (inversion H; subst; auto; fail).
     destruct vc; try (inversion H; subst; auto with memo; fail).
-    destruct (r_ref rc); [inversion H; subst; auto with memo|].
     destruct (eval f on defs st1 fr (if b then e2 else e3)) as [rb st2] eqn:E2. pose proof (Hev _ _ _ _ _ E2).
     inversion H; subst; auto with memo.
   - destruct (eval f on defs st fr e1) as [r1 st1] eqn:E1. pose proof (Hev _ _ _ _ _ E1).
@@ -611,7 +610,7 @@ Section LoggedEv.
     destruct (if on then cache_get (st_cache st) (fd_key fd) args else None) as [[v o]|];
       [inversion H; subst; apply wl_same; auto|].
     destruct (nth_error (st_heap st) fr) as [cur|]; [|inversion H; subst; apply wl_same; auto].
-    destruct (nth_error (st_heap st) (if bytes_eqb (fr_key cur) (fd_key fd) then fr else env)) as [pf|];
+    destruct (nth_error (st_heap st) (if same_fn cur d env then fr else env)) as [pf|];
       [|inversion H; subst; apply wl_same; auto].
     destruct (negb (length args =? length (fd_params fd))); [inversion H; subst; apply wl_same; auto|].
     match type of H with context [bind_params ?a ?b ?c ?d ?e ?f ?g] =>
@@ -682,7 +681,6 @@ Proof.
   - destruct (eval f on defs st fr e1) as [rc st1] eqn:E1. pose proof (Hev _ _ _ _ _ E1).
     destruct (r_oc rc) as [vc| |]; try (inversion H; subst; auto; fail).
     destruct vc; try (inversion H; subst; apply wl_with_oc; auto; fail).
-    destruct (r_ref rc); [inversion H; subst; apply wl_with_oc; auto|].
     destruct (eval f on defs st1 fr (if b then e2 else e3)) as [rb st2] eqn:E2. pose proof (Hev _ _ _ _ _ E2).
     inversion H; subst. eapply wl_then; eauto.
   - destruct (eval f on defs st fr e1) as [r1 st1] eqn:E1. pose proof (Hev _ _ _ _ _ E1).
